@@ -166,16 +166,15 @@ impl<'a> ExprAST<'a> {
         rhs: &ExprAST<'a>,
         ctx: &mut Context,
     ) -> Result<Value> {
-        match InfixOpManager::new().get_op_type(&op)? {
-            InfixOpType::CALC => {
-                InfixOpManager::new().get_handler(&op)?(lhs.exec(ctx)?, rhs.exec(ctx)?)
-            }
+        // one lookup: the operator's type and its handler must come from the same
+        // registration, even if the operator is re-registered while this runs
+        let config = InfixOpManager::new().get(&op)?;
+        let handler = config.3;
+        match config.1 {
+            InfixOpType::CALC => handler(lhs.exec(ctx)?, rhs.exec(ctx)?),
             InfixOpType::SETTER => {
                 let (a, b) = (lhs.exec(ctx)?, rhs.exec(ctx)?);
-                ctx.set_variable(
-                    lhs.get_reference_name()?,
-                    InfixOpManager::new().get_handler(&op)?(a, b)?,
-                );
+                ctx.set_variable(lhs.get_reference_name()?, handler(a, b)?);
                 Ok(Value::None)
             }
         }
